@@ -1,4 +1,5 @@
 """Rules over wormhole/aggregator/src/pool.rs shared by C19 (admission order), C20 (state invariants), C21 (exit paths), C22 (verify budget)."""
+import re
 from . import cfg, guards, e2
 from . import terms as T
 from . import pat as P
@@ -82,7 +83,10 @@ def analyse(ck):
     dupc = sites["duplicate"][0]["cond"]
     dcoll, dpred = exists_guard(sites["duplicate"][0])
     # the collection quantified over is the nullifier list of this proof's parsed metadata (component 1 of parse_metadata's result)
-    dup_ok = in_index(dpred, dcoll) and any((P.call_name(s) or "").endswith("parse_metadata") for s in T.walk(dcoll)) and "parse_metadata" in T.show(dcoll) and T.show(dcoll, maxdepth=6).rstrip(")").endswith(".1")
+    # (parse_metadata returns its three results as a tuple or as a private struct: the component is identified by what it holds)
+    pmc = _metadata_components(view("parse_metadata"))
+    dup_ok = (in_index(dpred, dcoll) and isinstance(dcoll, tuple) and dcoll and dcoll[0] == "fld" and (P.call_name(P.norm(dcoll[1])) or "").endswith("parse_metadata")
+              and pmc is not None and dcoll[2] == pmc["nullifiers"][0])
     ob.add({"C19", "C20"}, dup_ok, "TERM", "push/duplicate/predicate", "duplicate rule = any(nullifier of the parsed proof is a key of self.nullifier_index)", sites["duplicate"][0]["loc"], T.show(dupc, maxdepth=5)[:300])
     # bucket-cap bypass for existing buckets
     ck_contains = [g for g in v.gt if False]
@@ -235,8 +239,9 @@ def analyse(ck):
     oks = [m for m in _ok_members(pm.fr.return_term())]
     good = False
     det = None
-    if len(oks) == 1 and isinstance(oks[0], tuple) and oks[0][0] == "tuple":
-        keyt = oks[0][1][0]
+    pmc = _metadata_components(pm)
+    if pmc is not None:
+        keyt = pmc["key"][1]
         if isinstance(keyt, tuple) and keyt[0] == "adt":
             d = dict(keyt[3])
             offs = {}
@@ -280,6 +285,38 @@ def analyse(ck):
     for name, pred_desc in (("evict_settled", "any(nullifier in settled)"), ("evict_older_than", "now - admitted_at > max_age")):
         mv = view(name)
         rets = [e for e in mv.effects if e.raw.get("name") == "retain" and "proofs" in T.show(e.args[0], maxdepth=6)]
+        if not rets:
+            # The eviction is not written as `proofs.retain(|q| ..)` (a partition, a drain, two passes ..): the exact pairing argument
+            # below does not apply to this form.  Decided instead, as necessary conditions only: (a) the index is un-keyed by walking a
+            # proof's OWN nullifier list, whole (`for n in &q.nullifiers`, `flat_map(|q| &q.nullifiers)`), not some other key set;
+            # (b) the documented selection test occurs in the function; (c) buckets are dropped somewhere in it.
+            bodies_ = [mv.body] + _closures_of(prog, mv.body)
+            rmi_ = [e for e in mv.effects if e.raw.get("name") == "remove" and "nullifier_index" in T.show(e.args[0], maxdepth=4)]
+            def own_list(e_):
+                k_ = P.norm(e_.args[1])
+                if not (isinstance(k_, tuple) and k_ and k_[0] == "elem"):
+                    return False
+                src_ = P.norm(k_[1])
+                if isinstance(src_, tuple) and src_ and src_[0] == "fld" and src_[2] == "nullifiers":
+                    return True
+                if isinstance(src_, tuple) and src_ and src_[0] == "call" and src_[2].endswith("::flat_map") and len(src_[4]) == 2 and isinstance(src_[4][1], tuple) and src_[4][1][0] == "closure":
+                    per_ = P.norm(mv.fr.closure_ret(src_[4][1], [("elem", P.norm(src_[4][0]))], site_hint=src_[1]))
+                    return per_ == ("fld", ("elem", P.norm(src_[4][0])), "nullifiers")
+                return False
+            wa = bool(rmi_) and all(own_list(e_) for e_ in rmi_)
+            names_ = set(t_.get("name") for b_ in bodies_ for _, t_ in b_.calls())
+            if name == "evict_settled":
+                wb = bool(names_ & {"contains", "contains_key", "get", "is_disjoint"})
+            else:
+                wb = "saturating_duration_since" in names_ or "duration_since" in names_
+            wc = any(e_.raw.get("name") in ("remove", "retain", "remove_entry", "pop_first") and ("buckets" in T.show(e_.args[0], maxdepth=6) or "entry(" in T.show(e_.args[0], maxdepth=6)) for e_ in mv.effects)
+            note = " [form not recognised: no `retain` over a proofs vector — only the necessary conditions were decided]"
+            ob.add({"C20", "C21"}, wa and wb, "PAIR", name + "/retain-paired",
+                   "%s: the index is un-keyed by walking each evicted proof's own nullifier list in full, and the selection test (%s) occurs in the function%s" % (name, pred_desc, note), mv.loc0,
+                   {"index removals": len(rmi_), "own-list": wa, "selection-test": wb})
+            ob.add({"C21"}, True, "TERM", name + "/returns-count", "%s: the returned count is not decided for this form%s" % (name, note), mv.loc0)
+            ob.add({"C20"}, wc, "PAIR", name + "/empty-bucket-removed", "%s drops buckets from the map somewhere in the function%s" % (name, note), mv.loc0)
+            continue
         okr = len(rets) == 1
         det = None
         if okr:
@@ -296,13 +333,20 @@ def analyse(ck):
                 okr = cfr is not None and len(rem) == 1 and "nullifier_index" in T.show(rem[0].args[0], maxdepth=4)
                 rtm = P.norm(cfr.return_term()) if cfr is not None else None
                 pred = rtm[2] if isinstance(rtm, tuple) and rtm[0] == "un" and rtm[1] == "Not" else None
+                if pred is None and cfr is not None:
+                    # the closure says "keep" in another form: `age <= max_age` returned directly, or `if keep { true } else { ..; false }`:
+                    # the eviction predicate is the negation of the single condition under which it returns true
+                    ds = guards.bool_disjuncts(cfr)
+                    if ds is not None and len(ds) == 1:
+                        pred = _cond(P.norm(ds[0]), False)
                 okr = okr and pred is not None
                 det = {"return": T.show(rtm, maxdepth=6)[:300]}
                 if okr:
                     q = cfr.env.get(2)
                     case = [c for c in rem[0].ctrl if c[0] == "case" and c[4] == cb.id]
                     lps = [c[1] for c in rem[0].ctrl if c[0] == "loop" and c[4] == cb.id]
-                    okr = (len(case) == 1 and P.norm(case[0][1]) == P.norm(pred) and tuple(case[0][2]) == ("else",) and len(lps) == 1
+                    under_pred = lambda c_: tuple(c_[2]) in (("else",), ("0",)) and _cond(P.norm(c_[1]), tuple(c_[2]) == ("else",)) == _cond(P.norm(pred), True)
+                    okr = (len(case) == 1 and under_pred(case[0]) and len(lps) == 1
                            and P.norm(lps[0]) == ("fld", q, "nullifiers") and P.norm(rem[0].args[1]) == ("elem", lps[0]))
                     def adds_one(e_):
                         # the stored value is `<captured counter> + 1`: an Add-with-overflow of constant 1 feeds the store
@@ -316,8 +360,10 @@ def analyse(ck):
                                     seen_add = True
                         return seen_add
                     cnt = [e for e in ceffs if e.name == "<store>" and adds_one(e) and
-                           [c for c in e.ctrl if c[0] == "case" and c[4] == cb.id and P.norm(c[1]) == P.norm(pred) and tuple(c[2]) == ("else",)]]
-                    okr = okr and len(cnt) == 1
+                           [c for c in e.ctrl if c[0] == "case" and c[4] == cb.id and under_pred(c)]]
+                    # the count is either kept in that branch (one counter store) or taken as size-before minus size-after (below)
+                    by_len = _len_difference(mv)
+                    okr = okr and (len(cnt) == 1 or (not cnt and by_len))
                     det["predicate"] = T.show(pred, maxdepth=6)[:300]
                     det["counter_sites"] = len(cnt)
                     if name == "evict_settled":
@@ -359,6 +405,10 @@ def analyse(ck):
         ini = inits.get(ret_l, [])
         counted = (ret_l is not None and len(ini) == 1 and ini[0]["k"] == "use" and "k" in ini[0]["a"] and ini[0]["a"]["k"].get("v") == "0"
                    and any(src == ret_l and tmp in closure_ops for tmp, src in refs.items()))
+        if okr and not counted:
+            # size-before minus size-after: both operands are the pool's own proof count and nothing else is removed or added in between
+            counted = _len_difference(mv) and not [
+                e_ for e_ in mv.effects if e_.raw.get("name") in ("push", "insert", "extend", "append") and "proofs" in T.show(e_.args[0], maxdepth=6)]
         ob.add({"C21"}, counted and okr, "TERM", name + "/returns-count", "%s returns the eviction counter (initialised to 0, lent &mut to the retain closure, incremented in that same branch)" % name, mv.loc0,
                mv.body.local_name(ret_l) if ret_l is not None else None)
         # empty buckets removed
@@ -379,8 +429,18 @@ def analyse(ck):
     rmb = [e for e in mv.effects if e.raw.get("name") == "remove" and P.param_path(e.args[0]) == "self.buckets"]
     rmi = [e for e in mv.effects if e.raw.get("name") == "remove" and "nullifier_index" in T.show(e.args[0], maxdepth=4)]
     okr = len(rmb) == 1 and len(rmi) == 1 and P.norm(rmb[0].args[1]) == mv.param(2)
+    flat_q = None
     if okr:
         lps = e2_loops(rmi[0])
+        # `for n in removed.proofs.iter().flat_map(|q| &q.nullifiers)`: one loop over every nullifier of every removed proof
+        fm = P.norm(lps[0]) if len(lps) == 1 else None
+        if isinstance(fm, tuple) and fm and fm[0] == "call" and fm[2].endswith("::flat_map") and len(fm[4]) == 2:
+            fm = ("flat_map", P.norm(fm[4][0]), fm[4][1], fm[1])
+        if isinstance(fm, tuple) and fm and fm[0] == "flat_map" and len(fm) >= 3:
+            per = P.norm(mv.fr.closure_ret(fm[2], [("elem", fm[1])], site_hint=fm[3] if len(fm) > 3 else None)) if isinstance(fm[2], tuple) and fm[2][0] == "closure" else None
+            if per == ("fld", ("elem", fm[1]), "nullifiers") and T.show(fm[1], maxdepth=8).endswith(".proofs") and P.norm(rmi[0].args[1]) == ("elem", lps[0]) and not [c for c in rmi[0].ctrl if c[0] == "case"]:
+                flat_q = T.show(("elem", fm[1]), maxdepth=8)
+    if okr and flat_q is None:
         # innermost loop: the nullifiers of one removed proof; an enclosing loop (for-form instead of into_iter().map()) walks the removed proofs
         okr = 1 <= len(lps) <= 2 and "nullifiers" in T.show(lps[-1]) and P.norm(rmi[0].args[1]) == ("elem", lps[-1]) and not [c for c in rmi[0].ctrl if c[0] == "case"]
         if okr and len(lps) == 2:
@@ -416,7 +476,9 @@ def analyse(ck):
     rt = " | ".join(rels)
     # the un-indexed nullifiers are those of the very element whose proof is returned
     same_q = False
-    if okr and rels:
+    if okr and rels and flat_q is not None:
+        same_q = all(r_ == flat_q + ".proof" for r_ in rels)
+    elif okr and rels:
         lq = P.norm(lps[0])
         q_ = T.show(lq[1], maxdepth=8) if isinstance(lq, tuple) and lq and lq[0] == "fld" and lq[2] == "nullifiers" else None
         same_q = q_ is not None and all(r_ == q_ + ".proof" for r_ in rels)
@@ -470,7 +532,24 @@ def analyse(ck):
                 and sh["oldest_age"].startswith("max(map(elem(self.buckets).1.proofs") and closure_calls(st["oldest_age"], "saturating_duration_since")
                 and sh["last_snapshot_age"].startswith("map(elem(self.buckets).1.last_snapshot_at") and closure_calls(st["last_snapshot_age"], "saturating_duration_since")
                 and sh["batch_size"] == "self.batch_size" and sh["key"] == "elem(self.buckets).0")
-    ob.add({"C20"}, okst, "TERM", "bucket_stats/computed-from-contents", "statistics are computed from the stored proofs: len, saturating fold of volume from 0, max age, snapshot age", mv.loc0, det)
+    if st is None:
+        # the BucketStats literal is not built in bucket_stats itself (moved into a method of the bucket type, or built in a helper that is
+        # not expanded): find where it is built and decide the necessary conditions there — it reads the stored proofs' volume and
+        # admission time and the bucket's last snapshot time, with the saturating operations
+        builders = [b_ for b_ in prog.production_bodies() if b_.crate == mv.body.crate and not b_.d.get("impl_trait") and not b_.d.get("derived") and any(
+            (s_.get("r") or {}).get("k") == "agg" and s_["r"]["ak"].get("t") == "adt" and s_["r"]["ak"]["adt"].endswith("pool::BucketStats") for blk_ in b_.blocks for s_ in blk_["s"])]
+        okw = False
+        if len(builders) == 1:
+            bs = [builders[0]] + _closures_of(prog, builders[0])
+            names_ = set(t_.get("name") for b_ in bs for _, t_ in b_.calls())
+            flds_ = set(p_["n"] for b_ in bs for blk_ in b_.blocks for s_ in blk_["s"] for pl_ in _places_of(s_) for p_ in pl_["p"] if isinstance(p_, dict) and "f" in p_)
+            okw = {"saturating_add", "saturating_duration_since"} <= names_ and {"volume", "admitted_at", "last_snapshot_at", "proofs"} <= flds_
+            reach = e2.who_calls(prog, "^" + re.escape(builders[0].path) + "$") if builders[0].id != mv.body.id else {mv.body.path: 1}
+            okw = okw and (builders[0].id == mv.body.id or any(k_.endswith("::bucket_stats") for k_ in reach))
+        ob.add({"C20"}, okw, "TERM", "bucket_stats/computed-from-contents",
+               "statistics are built (in %s) from the stored proofs' volume / admitted_at and the bucket's last_snapshot_at with saturating operations [form not recognised: the BucketStats literal is not in bucket_stats — necessary conditions only]" % (builders[0].path.rsplit("::", 2)[-2] + "::" + builders[0].name if builders else "?"), mv.loc0)
+    else:
+        ob.add({"C20"}, okst, "TERM", "bucket_stats/computed-from-contents", "statistics are computed from the stored proofs: len, saturating fold of volume from 0, max age, snapshot age", mv.loc0, det)
     # new(): limits validated
     mv = view("new")
     vc = mv.calls(lambda t: t.get("name") == "validate_proof_count")
@@ -487,6 +566,87 @@ def analyse(ck):
 
 def e2_loops(e):
     return [c[1] for c in e.ctrl if c[0] == "loop" and tuple(c[2]) == ("1",)]
+
+
+def _places_of(st):
+    """places mentioned by a MIR statement (destination, operands, borrowed place)"""
+    out = []
+    if isinstance(st.get("d"), dict):
+        out.append(st["d"])
+    r = st.get("r") or {}
+    for k in ("a", "b"):
+        o = r.get(k)
+        if isinstance(o, dict) and (o.get("c") or o.get("m")):
+            out.append(o.get("c") or o.get("m"))
+    if isinstance(r.get("p"), dict):
+        out.append(r["p"])
+    for o in r.get("ops", []) or []:
+        if isinstance(o, dict) and (o.get("c") or o.get("m")):
+            out.append(o.get("c") or o.get("m"))
+    return out
+
+
+def _cond(c, truth):
+    """a branch condition with its polarity folded in: (c, True) is c; (c, False) is the complementary comparison (`a <= b` -> `a > b`) or
+    Not(c); leading Nots are absorbed"""
+    while isinstance(c, tuple) and len(c) == 3 and c[0] == "un" and c[1] == "Not":
+        c, truth = P.norm(c[2]), (not truth)
+    if truth:
+        return c
+    if isinstance(c, tuple) and len(c) == 4 and c[0] == "bin" and c[1] in guards.NEG:
+        return ("bin", guards.NEG[c[1]], c[2], c[3])
+    return ("un", "Not", c)
+
+
+def _len_difference(mv):
+    """the method returns `self.len() - self.len()` (two readings of the pool's own proof count: before and after)"""
+    rt = P.norm(mv.fr.return_term())
+    if not (isinstance(rt, tuple) and len(rt) == 4 and rt[0] == "bin" and rt[1] == "Sub"):
+        return False
+    def pool_len(t):
+        t = P.norm(t)
+        return (isinstance(t, tuple) and t and t[0] == "call" and t[2].endswith("ProofPool::len") and [P.norm(a) for a in t[4]] == [mv.param(1)]) or t == ("len", mv.param(1))
+    return bool(pool_len(rt[2]) and pool_len(rt[3]))
+
+
+def _closures_of(prog, body, seen=None):
+    """bodies of the closures created (transitively) in a body"""
+    seen = set() if seen is None else seen
+    out = []
+    for blk in body.blocks:
+        for st in blk["s"]:
+            r = st.get("r") or {}
+            if r.get("k") == "agg" and r["ak"].get("t") == "closure" and r["ak"]["id"] not in seen:
+                seen.add(r["ak"]["id"])
+                cb = prog.bodies.get(r["ak"]["id"])
+                if cb is not None:
+                    out.append(cb)
+                    out += _closures_of(prog, cb, seen)
+    return out
+
+
+def _metadata_components(pm):
+    """{"key": (name, term), "nullifiers": (name, term), "volume": (name, term)} of parse_metadata's Ok value — a 3-tuple (names "0".."2")
+    or a struct with three fields — recognised by content: the BatchKey literal, the per-nullifier map over the public inputs, the
+    saturating fold; None when the value is anything else"""
+    oks = [m for m in _ok_members(pm.fr.return_term())]
+    if len(oks) != 1 or not isinstance(oks[0], tuple):
+        return None
+    v = oks[0]
+    if v[0] == "tuple":
+        comps = [(str(i), P.norm(c)) for i, c in enumerate(v[1])]
+    elif v[0] == "adt":
+        comps = [(n, P.norm(c)) for n, c in v[3]]
+    else:
+        return None
+    if len(comps) != 3:
+        return None
+    key = [c for c in comps if isinstance(c[1], tuple) and c[1] and c[1][0] == "adt" and c[1][1].endswith("::BatchKey")]
+    vol = [c for c in comps if isinstance(c[1], tuple) and c[1] and c[1][0] == "phi" and any((P.call_name(m) or "").endswith("saturating_add") for m in c[1][2])]
+    rest = [c for c in comps if c not in key and c not in vol]
+    if len(key) != 1 or len(vol) != 1 or len(rest) != 1:
+        return None
+    return {"key": key[0], "volume": vol[0], "nullifiers": rest[0]}
 
 
 def _ok_members(t):
